@@ -477,10 +477,20 @@ func FixedInputs(hasher int, cfg bool, rng *rand.Rand) []Input {
 		DocPaths: []string{"line.0", "line.1", "line.2", "line0", "line1", "box.lid"}}
 	in4 := in3
 	in4.TwinFirst, in4.RngSeed = true, rng.Int63()
+	// (4) a node whose types are NOT written in lexicographic order and whose type-scoped contexts define
+	// the same term differently (JSON-LD applies them in lexicographic order: the later-sorting type wins)
+	doc5 := `{"@context": {"@version": 1.1,
+  "pet": {"@id": "` + v + `pet"},
+  "Animal": {"@id": "` + v + `Animal", "@context": {"name": {"@id": "` + v + `animalName", "@type": "` + x + `string"},
+                                                    "legs": {"@id": "` + v + `legs", "@type": "` + x + `integer"}}},
+  "Pet": {"@id": "` + v + `Pet", "@context": {"name": {"@id": "` + v + `petName", "@type": "` + x + `string"}}}},
+ "@id": "urn:zoo:1", "pet": {"@id": "urn:zoo:rex", "@type": ["Pet", "Animal"], "name": "Rex", "legs": 4}}`
+	in5 := Input{Doc: []byte(doc5), Hasher: hasher, Cfg: cfg, RngSeed: rng.Int63(), MustResolve: true,
+		DocPaths: []string{"pet.name", "pet.legs"}}
 	if !cfg {
-		in1.Hasher, in2.Hasher, in3.Hasher, in4.Hasher = 0, 0, 0, 0
+		in1.Hasher, in2.Hasher, in3.Hasher, in4.Hasher, in5.Hasher = 0, 0, 0, 0, 0
 	}
-	return []Input{in1, in2, in3, in4}
+	return []Input{in1, in2, in3, in4, in5}
 }
 
 // HVCase: one standalone merklize.HashValueWithHasher(h, datatype, value) call (integers only: no
@@ -608,6 +618,39 @@ func (e *Env) ArgSliceChecks(s *Scen, member []any) {
 			mk("arg-slice-variant")
 		}
 		parts[0] = "urn:overwritten"
+	}
+	// Prepend: several children completed from ONE reused prefix buffer with spare capacity, and from an
+	// argument slice mutated afterwards (also Prepend on an empty path); all built first, queried afterwards
+	if n >= 2 {
+		for cut := 1; cut < n && cut <= 2; cut++ {
+			buf := make([]any, cut, cut+4)
+			copy(buf, member[:cut])
+			child, err1 := s.opts().NewPath(member[cut:]...)
+			sib, err2 := s.opts().NewPath(append(clone(member[cut:]), "urn:arg-slice:sibling")...)
+			if err1 != nil || err2 != nil {
+				continue
+			}
+			_ = child.Prepend(buf...)
+			_ = sib.Prepend(buf...) // with in-place append this overwrites the tail child got
+			third, _ := s.opts().NewPath(7)
+			_ = third.Prepend(buf...)
+			bs = append(bs, built{child, 0, clone(member), "arg-slice-member"},
+				built{sib, 0, append(clone(member), "urn:arg-slice:sibling"), "arg-slice-variant"},
+				built{third, 0, append(clone(member[:cut]), 7), "arg-slice-variant"})
+			buf[0] = "urn:overwritten"
+		}
+	}
+	{
+		xs := clone(member)
+		empty, err := s.opts().NewPath()
+		if err == nil {
+			_ = empty.Prepend(xs...)
+			bs = append(bs, built{empty, 0, clone(member), "arg-slice-member"})
+			xs[0] = "urn:overwritten"
+			if n > 1 {
+				xs[n-1] = "urn:overwritten"
+			}
+		}
 	}
 	in := map[string]any{"scenario": s.In, "path": member, "pk": 0, "family": "arg-slice"}
 	for _, b := range bs {
